@@ -8,7 +8,8 @@ dominated by a branch establishing that the result comes from the peer the
 in-flight fetch was started with (an assertion is not a guard); the fetch queue
 push is bounded; the capacity predicate's table. 
 Service::disconnected drops a peer's fetch-table entries only on paths that also
-tear the session down. The rules follow helper functions (a helper that drops the entries is
+tear the session down. A session re-used for an inbound connection takes that connection's link on every path
+(disconnected's stale-event test compares links). The rules follow helper functions (a helper that drops the entries is
 treated as the drop at its call site).
 Not decided: the interleaving invariants themselves (Service.fetching versus
 Session.fetching consistency across events)."""
